@@ -96,7 +96,15 @@ func verifHarness_C16_resource() {
 	for _, d := range defs {
 		total += len(d.methods)
 	}
-	verifAssert(r.counter == total, "the route count equals the documented table restricted to the implemented actions")
+	nRoutes := 0
+	seenRoute := map[*Route]bool{}
+	r.IterateRoutes(func(rt *Route) {
+		if !seenRoute[rt] {
+			seenRoute[rt] = true
+			nRoutes++
+		}
+	})
+	verifAssert(nRoutes == nExpected && total >= nExpected, "the router holds exactly one route per implemented action")
 
 	// (2) every probe is dispatched to the action the table gives
 	m := []string{"GET", "POST", "PUT", "PATCH", "DELETE", "HEAD", "OPTIONS", "BREW"}[verifChoice("method", 8)]
